@@ -1,0 +1,11 @@
+//go:build verif
+
+// Contracts for package bscript, read by /verif's gobtvc (contract-based deductive verification).
+// This file is comment-only; it is compiled only with -tags verif and adds no code.
+
+package bscript
+
+//@ func bscript.DecodeParts
+//@   ensures[decode_nonempty] (=> (and (= err nil) (> (len b0) 0)) (>= (len result) 1))
+//@   loop 0 invariant (or (>= (len r) 1) (= (len b) (len b0)))
+//@   loop 0 decreases (len b)
